@@ -426,10 +426,10 @@ pub fn run_shard(ctx: &mut Ctx) {
             (Tier::Quick, 3) => 2000,
             (Tier::Quick, 4) => 1000,
             (Tier::Quick, _) => 500,
-            (Tier::Thorough, 2) => 60_000,
-            (Tier::Thorough, 3) => 50_000,
-            (Tier::Thorough, 4) => 25_000,
-            (Tier::Thorough, _) => 15_000,
+            (Tier::Thorough, 2) => 36_000,
+            (Tier::Thorough, 3) => 30_000,
+            (Tier::Thorough, 4) => 12_000,
+            (Tier::Thorough, _) => 6_000,
         };
         let n = ctx.share(total);
         ctx.run_cases(&format!("construct_d{dim}"), n, case_strategy(dim, thorough), &|c, l| exec(c, l));
